@@ -126,7 +126,11 @@ def run_children(histories, nproc=None):
         procs.append((subprocess.Popen([sys.executable, "-W", "ignore", "-m", "harness.dsgen_child", jp, op], cwd=lib.VERIF, stdout=subprocess.DEVNULL, stderr=subprocess.PIPE), op, part))
     out = {}
     for p, op, part in procs:
-        _o, err = p.communicate(timeout=3000)
+        try:
+            _o, err = p.communicate(timeout=3600)
+        except subprocess.TimeoutExpired:
+            p.kill()
+            _o, err = p.communicate()
         got = {}
         if os.path.exists(op):
             for line in open(op):
@@ -135,7 +139,7 @@ def run_children(histories, nproc=None):
         for h in part:
             if h["hid"] not in got:
                 # the child died (the code under test crashed the interpreter / hung): an observation, not a machinery error
-                got[h["hid"]] = dict(hid=h["hid"], calls=[dict(cfg=c["cfg"], mode=c["mode"], W=c.get("W", 0), res="raise:ChildProcessDied", n_got=0, items=[], events_by_proc=[], msg=(err or b"").decode(errors="replace")[-300:]) for c in h["calls"]])
+                got[h["hid"]] = dict(hid=h["hid"], calls=[dict(cfg=c["cfg"], mode=c["mode"], W=c.get("W", 0), res="timeout", n_got=0, items=[], events_by_proc=[], msg=(err or b"").decode(errors="replace")[-300:]) for c in h["calls"]])
         out.update(got)
     shutil.rmtree(d, ignore_errors=True)
     return [out[h["hid"]] for h in histories]
@@ -246,10 +250,14 @@ def main(chk: lib.Check) -> int:
     # ---- (C)
     hs = build_histories(chk.seed, n_p=1500 if thorough else 150, n_m=300 if thorough else 60)
     outs = run_children(hs)
-    recs, traces = [], []
+    recs, traces, unfinished = [], [], []
     for h, o in zip(hs, outs):
         for ci, (call, oc) in enumerate(zip(h["calls"], o["calls"])):
             cfg = call["cfg"]
+            if oc["res"] == "timeout":
+                # the call did not come back (or the child process was lost): machinery-level, not a verdict
+                unfinished.append(dict(hid=h["hid"], call=ci, cfg=cfg, mode=call["mode"], W=call.get("W", 0), msg=oc.get("msg", "")))
+                continue
             opts = flat_opts(cfg.get("endpoint_kwargs", {}))
             nontriv = call["mode"] == "pool" or ci > 0 or not opts["isdefault"]
             base = dict(n=cfg["grid_n"], n_req=cfg["n_mazes"], n_got=oc["n_got"], res=oc["res"], may_raise=may_raise(cfg), **opts)
@@ -257,8 +265,12 @@ def main(chk: lib.Check) -> int:
             recs.append(dict(kind="dataset", shape=[], conn=[], sol=[], start=[], end=[], **base, **tag))
             for ii, it in enumerate(oc["items"]):
                 recs.append(dict(kind="item", **it, **base, index=ii, **tag))
-        if h["m"]:
+        if h["m"] and not any(oc["res"] == "timeout" for oc in o["calls"]):
             traces.append(dict(hid=h["hid"], history=json.dumps(h), calls=[dict(cfg=c["cfg"]["name"], mode=c["mode"], W=c.get("W", 0), events=flatten_events(oc)) for c, oc in zip(h["calls"], o["calls"])]))
+    if unfinished:
+        print(f"MODEL-DIVERGENCE property=C03 {len(unfinished)} generate call(s) did not return within the watchdog time (not judged): {json.dumps(unfinished[0])[:300]}")
+        chk.divergences.append(("M:generate_call_did_not_return", "watchdog"))
+        chk.notes["calls_not_returned"] = unfinished[:5]
     keep = ("kind", "n", "shape", "conn", "sol", "start", "end", "isdefault", "has_aS", "aS", "has_aE", "aE", "deS", "deE", "neq", "n_req", "n_got", "res", "may_raise")
     orecs = [{k: r[k] for k in keep} for r in recs]
     lib.judge_with_canaries(chk, "Trace_Items", orecs, canaries(), label="item", what="items / calls of real MazeDataset.generate judged by SolvedOracle!Clauses",
